@@ -105,6 +105,12 @@ func checkCSR(c CaseCSR, r *kit.R) {
 	if err != nil {
 		r.Failf("C05:csr-parse-error", "ParseCertificateRequest rejects the created request: %v\nder=%x", err, der)
 	}
+	// the same template object once more: nothing in the to-be-signed part is random
+	if der2, err2 := x509.CreateCertificateRequest(rand.Reader, tmpl, key.ZPriv); err2 != nil {
+		r.Failf("C05:csr-template-reuse", "the second CreateCertificateRequest with the same template fails: %v", err2)
+	} else if csr2, perr := x509.ParseCertificateRequest(der2); perr != nil || !bytes.Equal(csr2.RawTBSCertificateRequest, csr.RawTBSCertificateRequest) {
+		r.Failf("C05:csr-template-reuse", "two CreateCertificateRequest calls with the same template give different to-be-signed bytes (%v)\nfirst=%x\nsecond=%x", perr, der, der2)
+	}
 	fail := func(k, f string, a ...any) {
 		r.Failf("C05:csr-"+k, f+"\nder=%x", append(a, der)...)
 	}
@@ -270,12 +276,21 @@ func checkCRL(c CaseCRL, r *kit.R) {
 	api, ver := issuer(r, c.Issuer, key, c.Parsed)
 	var der []byte
 	var err error
+	revokedIn := c.L.Revoked()
 	g := kit.GuardInline(func() {
-		der, err = api.CreateCRL(rand.Reader, key.ZPriv, c.L.Revoked(), c.L.Now.T(), c.L.Expiry.T())
+		der, err = api.CreateCRL(rand.Reader, key.ZPriv, revokedIn, c.L.Now.T(), c.L.Expiry.T())
 	})
 	r.Must(g, "CreateCRL")
 	if err != nil {
 		r.Failf("C05:crl-create-error", "CreateCRL failed (key %s): %v", key.Name, err)
+	}
+	// the same revoked-certificates slice once more
+	if der2, err2 := api.CreateCRL(rand.Reader, key.ZPriv, revokedIn, c.L.Now.T(), c.L.Expiry.T()); err2 != nil {
+		r.Failf("C05:crl-input-reuse", "the second CreateCRL with the same entries fails: %v", err2)
+	} else if a, e1 := x509.ParseDERCRL(der); e1 == nil {
+		if b, e2 := x509.ParseDERCRL(der2); e2 != nil || !bytes.Equal(a.TBSCertList.Raw, b.TBSCertList.Raw) {
+			r.Failf("C05:crl-input-reuse", "two CreateCRL calls with the same entries give different to-be-signed bytes (%v)\nfirst=%x\nsecond=%x", e2, der, der2)
+		}
 	}
 	fail := func(k, f string, a ...any) {
 		r.Failf("C05:crl-"+k, f+"\nder=%x", append(a, der)...)
@@ -392,10 +407,21 @@ func checkRL(c CaseRL, r *kit.R) {
 	api, ver := issuer(r, c.Issuer, key, c.Parsed)
 	var der []byte
 	var err error
+	rlTmpl := c.L.X509()
 	g := kit.GuardInline(func() {
-		der, err = x509.CreateRevocationList(rand.Reader, c.L.X509(), api, key.ZPriv.(crypto.Signer))
+		der, err = x509.CreateRevocationList(rand.Reader, rlTmpl, api, key.ZPriv.(crypto.Signer))
 	})
 	r.Must(g, "CreateRevocationList")
+	if err == nil && certgen.SigCompat(key, alg) {
+		// the same template object once more
+		if der2, err2 := x509.CreateRevocationList(rand.Reader, rlTmpl, api, key.ZPriv.(crypto.Signer)); err2 != nil {
+			r.Failf("C05:rl-template-reuse", "the second CreateRevocationList with the same template fails: %v", err2)
+		} else if a, e1 := x509.ParseRevocationList(der); e1 == nil {
+			if b, e2 := x509.ParseRevocationList(der2); e2 != nil || !bytes.Equal(a.RawTBSRevocationList, b.RawTBSRevocationList) {
+				r.Failf("C05:rl-template-reuse", "two CreateRevocationList calls with the same template give different to-be-signed bytes (%v)\nfirst=%x\nsecond=%x", e2, der, der2)
+			}
+		}
+	}
 	if !certgen.SigCompat(key, alg) {
 		r.Class("incompatible-key/algorithm")
 		return
